@@ -28,6 +28,8 @@ SPEC = {
 }
 SPEC['explanation'] += ' T15.negpath: on every path of pop(index) that tombstones a slot the position was tested for being negative first (helpers inlined). T25.raw: raw enumerations of item_list filter the tombstone marker or follow a rebuild of the list.'
 SPEC['decided'] += ['negative position tested on every tombstoning path', 'raw slot enumerations filter tombstones']
+SPEC['explanation'] += " T2.add holds for every method that appends a slot (add and any bulk operation that inlines it). T9.stalelen: _cull compares the last dead interval's stop with the untrimmed length of the slot list."
+SPEC['decided'] += ['slot bookkeeping in every appender', 'untrimmed length in _cull']
 MANIFEST = {
     'technique': 'pairing / must-pass-through analysis on CFG paths, two-point index-space qualifier check, nesting-depth check of iterator expressions, alias-guard check',
     'text': ('Decides structural necessary conditions of C11: tombstones, index map and dead-index table are updated together and '
